@@ -276,6 +276,13 @@ def _ops():
     op("triangle.circumcenter", (2, 3), ("tri",), lambda g: g.circumcenter, coll=False)
     op("triangle.area", (2, 3), ("tri",), lambda g: g.area, coll=False)
     op("tetrahedron.volume", (3,), ("tet",), lambda g: g.volume, coll=False)
+    # auxiliary points and bases of subspaces (the general point is not unique: its defining relation is the observable)
+    op("l.contains(l.general_point)", (2, 3), ("l0",), lambda l: l.contains(l.general_point))
+    op("e.contains(e.general_point)", (3,), ("e0",), lambda e: e.contains(e.general_point))
+    op("l.contains(l.base_point)", (2, 3), ("l0",), lambda l: l.contains(l.base_point))
+    op("l.base_point.isinf", (2, 3), ("l0",), lambda l: l.base_point.isinf)
+    op("l.direction", (2, 3), ("l0",), lambda l: l.direction)
+    op("basis_matrix rows on l", (2, 3), ("l0",), lambda l: l.contains(G.PointCollection(l.basis_matrix[..., 0, :])) & l.contains(G.PointCollection(l.basis_matrix[..., 1, :])))
     # simplices with fewer vertices than homogeneous coordinates (a triangle of 3-space; Simplex(p, q) is a Segment and has no volume)
     op("triangle.volume", (2, 3), ("tri",), lambda g: g.volume, coll=False)
     op("Simplex(p,q,r).volume", (2, 3), ("p0", "p1", "p2"), lambda a, b, c: Simplex(a, b, c).volume, coll=False)
